@@ -194,7 +194,7 @@ def run_case(inp):
             if sorted(map(str, lb.images.keys())) != sorted(map(str, names)):
                 V("image-ids", f"binned batch has images {sorted(map(str, lb.images.keys()))}, the batch had {sorted(map(str, names))}")
                 return viols
-            if np.abs(lb.molecules.pos - (pos_px - (b - 1) / 2) / b * (scale * b)).max() > 1e-3 * scale * b:
+            if not (np.abs(lb.molecules.pos - (pos_px - (b - 1) / 2) / b * (scale * b)).max() <= 1e-3 * scale * b):
                 V("same-region", "molecule i of the binned batch is not molecule i of the batch (positions differ)")
                 return viols
         imgs = [lb.image] if inp["kind"] == "single" else [lb.images[names[t]] for t in range(ntomo)]
